@@ -125,8 +125,8 @@ func monC10(c *Case, tr *Trace) []Violation {
 				// the hard Stop took the tunnel away before the refusal reached the caller's end: any failure is legitimate
 				continue
 			}
-			if term == nil {
-				add("refused_rpc_never_completed", drain2, "rpc %d (new_stream processed at step %d, after the shutdown) has no terminal result", i, nsRecv)
+			if term == nil || (stopFired < 0 && term.End >= tr.PhaseStart["end"]) {
+				add("refused_rpc_never_completed", drain2, "rpc %d (new_stream processed at step %d, after the shutdown) had no terminal result when the drained run reached its end", i, nsRecv)
 			} else if term.Code != 14 {
 				add("late_rpc_not_refused", term.End, "rpc %d (new_stream processed at step %d, after the shutdown): terminal result code %d (%s), want Unavailable", i, nsRecv, term.Code, term.Err)
 			}
